@@ -143,7 +143,7 @@ pub fn install_panic_hook() {
             }
         });
         let site = if take_bt {
-            let bt = std::backtrace::Backtrace::force_capture().to_string();
+            let bt = std::backtrace::Backtrace::force_capture().to_string(); if std::env::var("VERIF_DEBUG_BT").is_ok() { eprintln!("{}", bt); }
             let s = site_from_backtrace(&bt);
             if s == "unknown" {
                 format!("unknown@{}", loc_file(&loc))
